@@ -235,6 +235,12 @@ func sameValue(a, b Value) bool {
 	case Ptr:
 		y, ok := b.(Ptr)
 		return ok && x == y
+	case SymPtr:
+		y, ok := b.(SymPtr)
+		return ok && x == y
+	case SymStr:
+		y, ok := b.(SymStr)
+		return ok && sameValue(Agg(x.bytes), Agg(y.bytes))
 	case SliceV:
 		y, ok := b.(SliceV)
 		return ok && x == y
